@@ -951,9 +951,13 @@ def _hasattr(interp, args, kwargs, node):
         if isinstance(o, HObj):
             if a.value in o.attrs:
                 return Const(True)
-            if interp.prog.lookup_method(o.cls, a.value) is not None or interp.prog.lookup_class_attr(o.cls, a.value) is not None:
+            if interp.prog.lookup_method(o.cls, a.value) is not None:
                 return Const(True)
-            return PredV(("hasattr", ("ref", v.oid), a.value))
+            ca = interp.prog.lookup_class_attr(o.cls, a.value)
+            if ca is not None:
+                return Const(True)
+            # the abstract object lists every instance attribute it has (annotations without a value are not attributes)
+            return Const(False)
     if isinstance(v, ElemV) and v.role == "cond" and isinstance(a, Const) and a.value in ("index", "antecedence", "consequence", "textRepresentation", "weak"):
         return Const(True)
     return PredV(("hasattr", desc(v), desc(a)))
@@ -1088,10 +1092,13 @@ for _n in ("pickle.dump", "json.dump"):
 
     EXTERNAL[_n] = _dump
 
-for _n in ("pickle.load", "json.load", "json.loads"):
+for _n in ("pickle.load", "pickle.loads", "json.load", "json.loads"):
     def _load(interp, args, kwargs, node, _n=_n):
         k = interp.fresh_id("ld")
         interp.log("persist.load", node, how=_n, src=args[0], lid=k)
+        # reading a file of the other format fails: both outcomes are explored
+        may_raise(interp, node, "JSONDecodeError" if _n.startswith("json") else "UnpicklingError", (_n,))
+        interp.log("persist.loaded", node, how=_n, lid=k)
         return Sym(("loaded", _n, k))
 
     EXTERNAL[_n] = _load
@@ -1469,9 +1476,9 @@ def opaque_method(interp, ref, o: HOpaque, name, args, kwargs, node):
             return r
         if name == "exists":
             return PredV(("exists-file", ref.oid))
-        if name == "read_text":
+        if name in ("read_text", "read_bytes"):
             interp.log("file.read", node, path=ref)
-            return Sym(("read_text", ref.oid), "str")
+            return Sym((name, ref.oid), "str")
     if t == "file":
         if name in ("read", "write", "close"):
             interp.log("file." + name, node, obj=ref, args=tuple(args))
@@ -1492,7 +1499,12 @@ def obj_getattr(interp, ref, o, attr, node):
         if o.typ == "RC2" and attr == "cost":
             return Sym(("rc2cost", o.attrs.get("last_model", Const(0)).value), "int")
         if o.typ == "Path" and attr in ("suffix", "name", "stem", "parent"):
-            return Sym((attr, ("path", desc(o.attrs.get("of", Const(None))))), "str")
+            of = o.attrs.get("of", Const(None))
+            if isinstance(of, Const) and isinstance(of.value, str):
+                import pathlib as _pl
+
+                return Const(str(getattr(_pl.PurePosixPath(of.value), attr)))
+            return Sym((attr, ("path", desc(of))), "str")
         return None
     return None
 
